@@ -439,6 +439,9 @@ def gen_entry(rng, ascii_only):
         mode = rng.random()
         if mode < 0.25:
             e['msgstr_plural'] = [''] * k
+        elif mode < 0.32:
+            # a conflict marker in several translations of one message (reported once per message)
+            e['msgstr_plural'] = [rng.choice(['#-#-#-#-#  a.po  #-#-#-#-#\nfoo', 'x\n#-#-#-#-#  b  #-#-#-#-#', '#-#-#-#-#  c.po  #-#-#-#-#']) for _ in range(k)]
         else:
             e['msgstr_plural'] = [gen_text(rng) for _ in range(k)]
     else:
